@@ -70,6 +70,11 @@ def rule_ops_forward(prop, repo, types=None):
                 v = repo.tb(b).return_value()
                 nargs = 1 if op == "neg" else 2
                 ok, why = inplace_ok(repo, b, v, op, nargs)
+                if not ok:
+                    # early exits that use an identity of the operation on the path their operand test guards (−0 = 0, x·1 = x, x·x = x²)
+                    ok2, why2 = shared.forwards(repo, b, lambda val, b=b, op=op, nargs=nargs: inplace_ok(repo, b, val, op, nargs), op)
+                    if ok2:
+                        ok, why = True, ""
                 R.check(ok, "%s:ops:%s" % (prop, b.rec["path"]), "%s is not the `%s` of its operands in order: %s" % (b.rec["path"], op, why), b.file_line(), b.rec["path"],
                         sample={"fn": b.rec["path"], "shape": show(v, maxdepth=3)[:160]})
     return R.finish()
@@ -490,7 +495,8 @@ def selected_bit(v, me):
     return None
 
 
-SHORTCUT_OPS = (("mul", "mul"), ("squar", "squared"), ("invers", "inverse"), ("add", "add"), ("sub", "sub"), ("neg", "neg"), ("double", "double"))
+SHORTCUT_OPS = {"mul": "mul", "mul_inplace": "mul", "mul_assign": "mul", "squared": "squared", "square": "squared", "inverse": "inverse", "add": "add", "add_inplace": "add",
+                "add_assign": "add", "sub": "sub", "sub_inplace": "sub", "sub_assign": "sub", "neg": "neg", "neg_inplace": "neg", "double": "double"}
 
 
 def rule_shortcuts(prop, repo, types):
@@ -513,8 +519,8 @@ def rule_shortcuts(prop, repo, types):
         if ty not in types or b.rec["kind"] not in ("Fn", "AssocFn"):
             continue
         nm = b.name or ""
-        op = next((o for key, o in SHORTCUT_OPS if key in nm), None)
-        if op is None or nm.startswith(("is_", "from_", "to_")):
+        op = SHORTCUT_OPS.get(nm)        # the general operations only: sparse / scaled variants have identities of their own
+        if op is None:
             continue
         ins = b.rec.get("inputs") or []
         if not ins or not all(ty.split("::")[-1] in i for i in ins[:2]):
@@ -959,6 +965,9 @@ def rule_tower_consts(prop, repo):
             ok = bool(pred(rv))
         except (IndexError, KeyError, TypeError):
             ok = False
+        if not ok:
+            # early exits that are the defining shape specialised by an operand test (0·x = 0, −(2·0) = 0) are the same map
+            ok, _why = shared.forwards(repo, b, pred, {"scale": "mul", "mul_by_nonresidue": "neg", "unitary_inverse": "neg"}.get(name))
         R.check(ok, "%s:tower:Fq2::%s" % (prop, name), "Fq2::%s does not have its defining shape: %s" % (name, show(rv, maxdepth=4)[:200]), b.file_line(), b.rec["path"],
                 sample={"fn": "Fq2::" + name, "shape": show(rv, maxdepth=3)[:120]})
     # every override of One::is_one is `*self == Self::one()` (the default's meaning)
@@ -1124,14 +1133,24 @@ def rule_tower_shapes(prop, repo):
             R.fail_closed("%s:shape:%s" % (prop, path), "%s not found" % path)
             continue
         rv = repo.tb(b).return_value()
-        ok = rv[0] == "agg" and len(rv[3]) == len(want)
         got = []
-        if ok:
-            for c, (ops, src, ex) in zip(rv[3], want):
-                o, s, e = _comp(c)
-                got.append((o, s))
-                if o != ops or s != src or (ex == "by" and e not in BY):
-                    ok = False
+
+        def has_shape(rv, want=want, got=got):
+            rv = strip(rv)
+            ok = rv[0] == "agg" and len(rv[3]) == len(want)
+            del got[:]
+            if ok:
+                for c, (ops, src, ex) in zip(rv[3], want):
+                    o, s, e = _comp(c)
+                    got.append((o, s))
+                    if o != ops or s != src or (ex == "by" and e not in BY):
+                        ok = False
+            return ok
+        ok = has_shape(rv)
+        if not ok:
+            g0 = list(got)
+            ok, _why = shared.forwards(repo, b, has_shape, "mul" if any(w[2] == "by" for w in want) else "neg")
+            got[:] = g0
         R.check(ok, "%s:shape:%s" % (prop, path), "%s has components %s; defining shape is %s" % (path, got, [(w[0], w[1]) for w in want]), b.file_line(), path,
                 sample={"fn": path.split("::")[-2] + "::" + path.split("::")[-1], "components": [str(g) for g in got]} if R.instances % 4 == 1 else None)
     for ap in repo.fp_types():
@@ -1217,6 +1236,27 @@ def rule_tower_shapes(prop, repo):
         rest = path[len(chain):]
         return any(s[0] == d and s[2] == rest for s in SPARSE)
 
+    def tested_zero(cb, bb, x, comp):
+        k = shared.peel_param(x)
+        if k is None:
+            return False
+        try:
+            rows = shared.path_table(repo, cb, max_atoms=8)
+        except Exception:
+            rows = None
+        if not rows:
+            return False
+        full = k[1] + tuple(comp)
+        hit = False
+        for asg, val, res in rows:
+            if bb not in res.blocks:
+                continue
+            hit = True
+            facts = shared.algebra_facts(asg, repo)
+            if not any(("zero", (k[0], full[:j])) in facts for j in range(len(full) + 1)):
+                return False
+        return hit
+
     lifted = {}
     for path, p, comp, desc in SPARSE:
         b = F.bodies.get(path)
@@ -1248,6 +1288,8 @@ def rule_tower_shapes(prop, repo):
                 chain = tuple(reversed(chain))
                 if y in (("param", 2), ("init", ("deref", 2))) and any(s[0] == cb.rec["path"] and s[2] == chain + comp for s in SPARSE):
                     continue
+                if not zero_shaped(x, comp) and tested_zero(cb, bb, x, comp):
+                    continue      # the caller reached this call only over the true edge of is_zero() on that very component
                 if not zero_shaped(x, comp):
                     bad.append("%s at %s passes %s" % (cb.rec["path"], loc_of(cb, bb), show(x, maxdepth=3)[:100]))
         if sites == 0:
